@@ -390,6 +390,14 @@ fn run_standard(cx: &mut Ctx, args: &Args) {
             }
         }
     }
+    // bare references (empty, '?...', '#...') against every file base of the pool: outside class 1
+    for (bi, b) in pool.iter().enumerate() {
+        if b.starts_with("file:") {
+            for r in ["", " ", "#", "#f", "?", "?q", "?q#f", "\t#x", "?%", "#\\", "?\\..", "#/C|/..", "? #\u{e9}"] {
+                spec_vs_impl(cx, "std-directed", Some((*b, &bases[bi])), r);
+            }
+        }
+    }
     let k = if args.tier == "thorough" { 3 } else { 2 };
     for b in [None, Some(0usize), Some(9), Some(11)] {
         for_all_strings(&URL_CLASS, k, |s| {
